@@ -68,6 +68,10 @@ type ProgObs struct {
 	Exit   int
 	Stderr string // only kept when the program was run alone
 	Stdout string
+	// GroupStderr/GroupStdout are the streams of the invocation that covered
+	// this program (shared by all programs of the group).
+	GroupStderr string
+	GroupStdout string
 	Pkgs   map[string]*PkgResult
 	Alone  bool
 	Dur    time.Duration
@@ -154,7 +158,7 @@ func (w *Workspace) GenAll(names []string, o GenOpts) map[string]*ProgObs {
 	}
 	record := func(ns []string, status string, r CmdResult, g *GenOutput) {
 		for _, n := range ns {
-			ob := &ProgObs{Status: status, Exit: r.Exit, Pkgs: map[string]*PkgResult{}, Alone: len(ns) == 1, Dur: r.Dur}
+			ob := &ProgObs{Status: status, Exit: r.Exit, Pkgs: map[string]*PkgResult{}, Alone: len(ns) == 1, Dur: r.Dur, GroupStderr: r.Stderr, GroupStdout: r.Stdout}
 			if len(ns) == 1 {
 				ob.Stderr = r.Stderr
 				ob.Stdout = r.Stdout
